@@ -441,6 +441,12 @@ func c05Child(c *mon.Child) {
 // alternately and compares each stream with the same input lexed on its own:
 // lexers of one definition must not share state.
 func c05Interleave(c *mon.Child, key string, gen lexer.Definition, names map[lexer.TokenType]string, a, b string, gdesc string) {
+	lexInterleave(c, key, "generated", gen, names, a, b, gdesc)
+}
+
+// lexInterleave advances two lexers of one definition alternately; each must
+// produce what it produces when its input is lexed alone.
+func lexInterleave(c *mon.Child, key, kind string, gen lexer.Definition, names map[lexer.TokenType]string, a, b string, gdesc string) {
 	step := func(lx lexer.Lexer, out *realLex) bool {
 		if out.EOF != nil || out.Err != nil || out.Panicked || len(out.Toks) > len(a)+len(b)+4 {
 			return false
@@ -482,7 +488,7 @@ func c05Interleave(c *mon.Child, key string, gen lexer.Definition, names map[lex
 	c.Eval(1)
 	for i, pair := range [][2]*realLex{{wantA, gotA}, {wantB, gotB}} {
 		if d := c05Compare(pair[0], pair[1], 1<<30, false); d != "" {
-			c.Violation("", key, fmt.Sprintf("two lexers of one generated definition advanced alternately: lexer %d differs from the same input lexed alone (%s) | rules: %s | inputs: %q and %q", i, d, gdesc, trunc(a, 200), trunc(b, 200)),
+			c.Violation("", key, fmt.Sprintf("two lexers of one "+kind+" definition advanced alternately: lexer %d differs from the same input lexed alone (%s) | rules: %s | inputs: %q and %q", i, d, gdesc, trunc(a, 200), trunc(b, 200)),
 				map[string]interface{}{"input_a": a, "input_b": b})
 			return
 		}
